@@ -10,6 +10,7 @@ var harnessOf = map[string]*sim.Harness{
 	"C07": HDKV, "C08": HDKV, "C09": HDKV, "C18": HDKV,
 	"C20": HBatch,
 	"C10": HTimer,
+	"C17": HSSTWAL,
 	"C12": HStore, "C13": HStore,
 }
 
